@@ -453,6 +453,29 @@ func local() []cat.Program {
 			},
 			Data: map[string]vals.V{"who": s("xmyWHO"), "m": loopMap("mapss", map[string]vals.V{"a": s("A"), "b": s("B"), "c": s("C")})}},
 
+		// overlay storage with the SAME template files in several layers (nested overlays: site over
+		// theme over defaults); the edits of the histories rewrite the upper copies
+		{Name: "x-twolayer", Opts: []string{"twolayer"}, Canary: "xtlWHO", Feat: []string{"overlay", "layers", "include"},
+			Files: map[string]string{
+				"page.vuego":                `<p>site page {{ who }}</p><template include="components/xtl-part.vuego" :n="who"></template>` + end,
+				"components/xtl-part.vuego": `<b>site part {{ n }}</b>`,
+			},
+			Data: map[string]vals.V{"who": s("xtlWHO")}},
+		{Name: "x-twolayer-layout", FileOnly: true, Opts: []string{"twolayer"}, Canary: "xtyWHO", Feat: []string{"overlay", "layers", "layout", "front-matter"},
+			Files: map[string]string{
+				"page.vuego":         "---\nlayout: site\ntitle: T-xty\n---\n" + `<article>{{ title }} {{ who }}</article>`,
+				"layouts/site.vuego": `<main>{{ title }}<div v-html="content"></div></main>` + end,
+			},
+			Data: map[string]vals.V{"who": s("xtyWHO")}},
+		// registered functions named like built-ins of the expression library, used in v-if,
+		// v-else-if, v-show, bound attributes, :class objects, v-for bodies and {{ }}
+		{Name: "x-builtin-named", Opts: []string{"builtin-funcs"}, Canary: "xbnWHO", Feat: []string{"builtin-named-funcs", "expr", "func"},
+			Files: map[string]string{"page.vuego": `<p v-if="first(items) == 'F:alpha'">first ok {{ first(items) }}</p><p v-else>first other {{ first(items) }}</p>` +
+				`<p v-if="max(items) == 'MAX3'" :title="max(items)" :data-sum="sum(items)">max ok {{ max(items) }} {{ min(items) }}</p><p v-else-if="last(items) == 'L:gamma'">last {{ last(items) }}</p><p v-else>none</p>` +
+				`<i v-show="join(items) == '<alpha|beta|gamma>'" :class="{ joined: join(items) == '<alpha|beta|gamma>', keyed: keys(items) == 'K3' }">{{ join(items) }} {{ keys(items) }} {{ values(items) }}</i>` +
+				`<ul><li v-for="it in items" :data-a="abs(it)"><b v-if="trim(it) == '[beta]'">{{ trim(it) }}</b><em v-else>{{ abs(it) }}</em></li></ul><u>{{ who }} {{ sum(items) }}</u>` + end},
+			Data: map[string]vals.V{"who": s("xbnWHO"), "items": anys(s("beta"), s("alpha"), s("gamma"))}},
+
 		// retype twins: DIFFERENT files with the SAME template text (so the same expression texts)
 		// whose data gives the same names differently typed values; on the shared engine they meet
 		// in both orders. Only expressions that are valid for every typing are used here.
